@@ -9,6 +9,9 @@ import ModVerif.Proofs.ModuleSplit
 import ModVerif.Proofs.ModuleSpec
 import ModVerif.Proofs.ModuleGlob
 import ModVerif.Proofs.ModuleMajor
+import ModVerif.Proofs.ModuleFullSplit
+import ModVerif.Proofs.ModuleFullCheck
+import ModVerif.Proofs.ModuleFullPrefix
 import ModVerif.Spec.PathSpec
 namespace ModVerif.Props.C06
 open ModVerif ModVerif.Module
@@ -34,18 +37,42 @@ theorem checkFilePath_iff (isLetter : Nat → Bool) (p : Bytes) :
     checkFilePath isLetter p = .ok () ↔ PathSpec.ValidPath isLetter .file p :=
   checkPath_iff_spec isLetter .file p
 
-/-- CheckPath (module paths), proved part: acceptance is the conjunction of the general rules for kind
-    `module`, the first-element rules (non-empty, contains a dot, only lower-case letters, digits, '-'
-    and '.'), and SplitPathVersion reporting ok.  The characterisation of "SplitPathVersion reports ok"
-    by the documented major-suffix rule is `split_spec` (one direction); the converse is in PENDING.md. -/
-theorem checkModPath_iff_partial (p : Bytes) :
+/-- CheckPath (module paths) accepts exactly the paths that satisfy the three documented rules, each stated
+    on the path alone (Spec/PathSpec.lean and `PathSpec.FirstElemOK` / `PathSpec.MajorRuleOK` in
+    Proofs/ModuleFullSplit.lean, none of which mentions a function of the model):
+    the general rules for kind `module`; the first element (up to the first slash) contains a dot, does not
+    start with a dash and consists of lower-case ASCII letters, digits, '-' and '.'; and the major-version
+    rule — outside gopkg.in the path does not end in "/v" followed by a run of digits and dots that contains
+    a dot, starts with '0' or is "1"; under gopkg.in it ends in ".vN" or ".vN-unstable" (N decimal without
+    leading zero, ".v0-unstable" excluded). -/
+theorem checkModPath_iff (p : Bytes) :
     checkModPath p = .ok () ↔
-      PathSpec.ValidPath (fun _ => false) .module p ∧
-      (p.takeWhile (· != 47)) ≠ [] ∧ 46 ∈ p.takeWhile (· != 47) ∧ p.head? ≠ some 45 ∧
-      (∀ r ∈ Utf8.runes (p.takeWhile (· != 47)), firstPathOK r = true) ∧
-      (splitPathVersion p).2.2 = true := by
-  rw [checkModPath_ok_iff, checkPath_iff_spec]
-  simp [toSpec]
+      PathSpec.ValidPath (fun _ => false) .module p ∧ PathSpec.FirstElemOK p ∧ PathSpec.MajorRuleOK p :=
+  checkModPath_iff_full p
+
+/-- SplitPathVersion reports ok exactly under the documented major-version rule (both directions; `split_spec`
+    below adds the shape of the returned suffix). -/
+theorem split_ok_iff (p : Bytes) : (splitPathVersion p).2.2 = true ↔ PathSpec.MajorRuleOK p :=
+  splitPathVersion_ok_iff p
+
+/-- The `leading slash` and `leading dash in first path element` error returns of CheckPath are dead code:
+    no input reaches them (the general checker has already rejected an empty first element and a leading
+    dash).  (The third dead return, EscapePath's internal error, is `Props.C11.escapePath_total_on_valid`.) -/
+theorem checkModPath_dead_branches (p : Bytes) :
+    checkModPath p ≠ .error .leadingSlash ∧ checkModPath p ≠ .error .leadingDashFirst :=
+  checkModPath_dead p
+
+-- non-vacuity of the three conjuncts on a concrete accepted path, and each major-rule failure mode
+example : checkModPath (B "gopkg.in/yaml.v2-unstable") = .ok () ∧ checkModPath (B "example.com/m/v2") = .ok () := by
+  decide +kernel
+example : PathSpec.BadSlashMajor (B "example.com/m/v1") :=
+  ⟨B "example.com/m", [49], by decide +kernel, by simp, by intro c hc; simp at hc; subst hc; left; unfold PathSpec.isAsciiDigit; decide,
+    Or.inr (Or.inr rfl)⟩
+example : PathSpec.GopkgPathOK (B "gopkg.in/yaml.v2-unstable") :=
+  ⟨B "gopkg.in/yaml", [50], ⟨by simp, by intro c hc; simp at hc; subst hc; unfold PathSpec.isAsciiDigit; decide, by simp⟩,
+    Or.inr ⟨by decide +kernel, by simp⟩⟩
+example : checkModPath (B "example.com/m/v1") = .error .invalidVersion ∧ checkModPath (B "gopkg.in/yaml.v0-unstable") = .error .invalidVersion
+    ∧ checkModPath (B "/x.y") = .error .emptyElem ∧ checkModPath (B "-x.y") = .error .leadingDash := by decide +kernel
 
 /-! ### inclusions: module ⊆ import ⊆ file -/
 
@@ -111,14 +138,24 @@ example : (splitPathVersion (B "example.com/m/v1")).2.2 = false ∧ (splitPathVe
 /-! ### Check and CheckPathMajor -/
 
 /-- Check(path, version) accepts exactly when CheckPath accepts the path, the version is a valid semantic
-    version, and CheckPathMajor accepts the version for the path's major suffix.  (Proved part of
-    `check_iff`: CheckPathMajor is characterised by the three theorems below, one per documented suffix
-    shape — `split_valid_module_path` shows these are the only shapes; folding them into the single
-    predicate `PathSpec.MajorMatches` is in PENDING.md.) -/
-theorem check_iff_partial (p v : Bytes) :
+    version, and the path's major-version suffix matches the version under the documented correspondence
+    `PathSpec.MajorMatches` (no suffix: v0, v1 or "+incompatible"; "/vN": major vN; gopkg.in ".vN[-unstable]":
+    major vN, or N = 1 with a "v0.0.0-" pseudo-version).  With `checkModPath_iff` and `C04.isValid_iff` all
+    three conjuncts are specification-level. -/
+theorem check_iff (p v : Bytes) :
     check p v = .ok () ↔
-      checkModPath p = .ok () ∧ Semver.isValid v = true ∧ checkPathMajor v (splitPathVersion p).2.1 = true :=
-  check_ok_iff p v
+      checkModPath p = .ok () ∧ Semver.isValid v = true ∧ PathSpec.MajorMatches (splitPathVersion p).2.1 v :=
+  check_iff_full p v
+
+/-- CheckPathMajor is the documented correspondence on every suffix of the documented shape (in particular
+    on every suffix SplitPathVersion returns, `split_spec`). -/
+theorem checkPathMajor_iff (p maj v : Bytes) (hs : PathSpec.MajorSuffix p maj) :
+    checkPathMajor v maj = true ↔ PathSpec.MajorMatches maj v :=
+  checkPathMajor_iff_matches p maj v hs
+
+example : PathSpec.MajorSuffix (B "gopkg.in/yaml.v2") (B ".v2") :=
+  Or.inr (Or.inr ⟨by decide +kernel, [50], ⟨by simp, by intro c hc; simp at hc; subst hc; unfold PathSpec.isAsciiDigit; decide, by simp⟩,
+    Or.inl (by decide +kernel)⟩)
 
 /-- no suffix: the version's major is v0 or v1, or the version ends in "+incompatible". -/
 theorem major_match_empty (v : Bytes) :
@@ -152,6 +189,29 @@ example : check (B "example.com/m/v2") (B "v2.1.0") = .ok () ∧ check (B "examp
     ∧ check (B "example.com/m") (B "1.0.0") = .error .notSemver := by decide +kernel
 example : ∀ d ∈ ([49, 50] : Bytes), PathSpec.isAsciiDigit d.toNat := by
   intro d hd; simp at hd; rcases hd with rfl | rfl <;> (unfold PathSpec.isAsciiDigit; decide)
+
+/-! ### PathMajorPrefix -/
+
+/-- PathMajorPrefix returns (does not panic) exactly on: "" (result ""), the bare separators "/" and "."
+    (result ""), and "/vN", ".vN", ".vN-unstable" with N a decimal number without leading zero (result "vN"). -/
+theorem pathMajorPrefix_spec (maj m : Bytes) :
+    pathMajorPrefix maj = some m ↔
+      (maj = [] ∧ m = []) ∨ ((maj = [47] ∨ maj = [46]) ∧ m = []) ∨
+      ∃ n, PathSpec.Num n ∧ m = 118 :: n ∧
+        (maj = 47 :: 118 :: n ∨ maj = 46 :: 118 :: n ∨ maj = 46 :: 118 :: (n ++ B "-unstable")) :=
+  pathMajorPrefix_iff maj m
+
+/-- Both panics of PathMajorPrefix are unreachable on the suffixes SplitPathVersion returns with ok: the result
+    is "" for the empty suffix and "vN" for "/vN", ".vN", ".vN-unstable". -/
+theorem pathMajorPrefix_no_panic_on_split (p pre maj : Bytes) (h : splitPathVersion p = (pre, maj, true)) :
+    (maj = [] ∧ pathMajorPrefix maj = some []) ∨
+    ∃ n, PathSpec.Num n ∧ pathMajorPrefix maj = some (118 :: n) ∧
+      (maj = 47 :: 118 :: n ∨ maj = 46 :: 118 :: n ∨ maj = 46 :: 118 :: (n ++ B "-unstable")) :=
+  pathMajorPrefix_total_on_split p pre maj h
+
+example : pathMajorPrefix (B ".v2-unstable") = some (B "v2") ∧ pathMajorPrefix (B "/v3") = some (B "v3")
+    ∧ pathMajorPrefix (B "v2") = none ∧ pathMajorPrefix (B "/v2-unstable") = none ∧ pathMajorPrefix (B "/v02") = none := by
+  decide +kernel
 
 /-! ### MatchPrefixPatterns -/
 
